@@ -352,3 +352,40 @@ Definition c11_ok (i : scenario) (obs : list opobs) : bool :=
 Definition nontrivial_run (i : scenario) (obs : list opobs) : bool :=
   (3 <=? length (snd i))%nat &&
   existsb (fun ob => is_err (ob_res ob) || negb (match ob_written ob with [] => true | _ => false end)) obs.
+
+(* ---------- C06: transport failure reaches every caller promptly, as AMQPConnectionError ---------- *)
+Definition is_fault (cf : nat * frame) : bool :=
+  Nat.eqb (fst cf) 0 &&
+  (fname_eqb (f_name (snd cf)) NFaultRecv || fname_eqb (f_name (snd cf)) NFaultPoll).
+Definition is_send_fault (cf : nat * frame) : bool :=
+  Nat.eqb (fst cf) 0 && fname_eqb (f_name (snd cf)) NFaultSend.
+Definition conn_err (r : result) : bool :=
+  match r with RErr e => ekind_eqb (e_kind e) EConn | _ => false end.
+
+Definition c06_ok (i : scenario) (obs : list opobs) : bool :=
+  let steps := snd i in
+  scan_steps (fun (_ : unit) k st ob =>
+    let before := prev_snap (st_chan st) steps obs empty_snap k in
+    (* a transport error is on record (receive / poll failure, or a refused write) *)
+    let faulted := negb (match sn_cerrs before with [] => true | _ => false end) in
+    let now_fault := existsb is_fault (ob_delivered ob) in
+    (tt,
+     negb (ob_late ob) &&
+     (* whatever is raised once the transport has failed is an AMQPConnectionError *)
+     (if faulted || now_fault
+      then match ob_res ob with
+           | RErr e => ekind_eqb (e_kind e) EConn
+           | RHang | ROther => false
+           | _ => true end
+      else true) &&
+     (* every call made after the failure raises it (close / stop_consuming return) *)
+     (if faulted && app_op (st_op st)
+      then match st_op st with
+           | AClose | AStop => true
+           | _ => conn_err (ob_res ob)
+           end
+      else true) &&
+     (* and from the first report on the connection and the channel are closed *)
+     (if conn_err (ob_res ob)
+      then st_eqb (sn_conn (ob_snap ob)) CLOSED && st_eqb (sn_state (ob_snap ob)) CLOSED
+      else true))) tt 0%nat steps obs.
